@@ -374,8 +374,8 @@ func main() {
 	genCase("corpus", []int64{999_999_996, 999_999_997, 999_999_998, 999_999_999, 999_999_999, 999_999_999})
 	genCase("corpus", []int64{5_000_000_000, 1, 2, 3, 5_000_000_001, 5_000_000_004})
 	genCase("corpus", []int64{1_700_000_000_123_456_789, 1_700_000_000_123_456_790, 1_700_000_000_123_456_791})
-	// all step patterns of length 5 over steps {-5, 0, 1, 2, 3, 4, 9} from two bases
-	steps := []int64{-5, 0, 1, 2, 3, 4, 9}
+	// all step patterns of length 4 over steps {-5, 0, 1, 3, 4, 9} from two bases
+	steps := []int64{-5, 0, 1, 3, 4, 9}
 	for _, base := range []int64{100, 2_999_999_990} {
 		for a := range steps {
 			for b := range steps {
@@ -386,7 +386,7 @@ func main() {
 			}
 		}
 	}
-	for i := 0; i < c.N(450, 40000); i++ {
+	for i := 0; i < c.N(300, 40000); i++ {
 		cl, k := genClocks(c.Rng)
 		genCase(k, cl)
 	}
@@ -397,6 +397,6 @@ func main() {
 	for i := 0; i < c.N(30, 600); i++ {
 		connCase("concurrent", c.Rng.U64(), 8, c.Rng.Range(2, 8))
 	}
-	c.Obs.Rule = "MessageIDGen cases: scripted clock sequences (corpus incl. the repaired 1000/1001 ns witness, all 4-step patterns over steps {-5,0,1,2,3,4,9} at two bases, random sequences of <=24 readings over frozen/backward/+1..3 ns/coarse steps at small, realistic and second-boundary bases); non-trivial = distinct sequence containing a step below 4 ns (frozen, backwards or sub-resolution). Conn cases: frames written by a real Conn, 1 or 8 goroutines mixing Invoke and service messages, taken in msg_id order; each distinct run counts"
+	c.Obs.Rule = "MessageIDGen cases: scripted clock sequences (corpus incl. the repaired 1000/1001 ns witness, all 4-step patterns over steps {-5,0,1,3,4,9} at two bases, random sequences of <=24 readings over frozen/backward/+1..3 ns/coarse steps at small, realistic and second-boundary bases); non-trivial = distinct sequence containing a step below 4 ns (frozen, backwards or sub-resolution). Conn cases: frames written by a real Conn, 1 or 8 goroutines mixing Invoke and service messages, taken in msg_id order; each distinct run counts"
 	c.Finish()
 }
